@@ -29,6 +29,10 @@ NoSignUnlessOptInT == X.e = "call" => (X.signed > 0 => OptIn(X.transport, EnvOf)
 \* the registration guard of the model: protected names are served only on opted-in transports.  (Not a verdict: a served method that
 \* refuses to sign would not break C18; kept for reading a rejected trace.)
 GuardT == X.e = "served" => \A m \in ProtectedWire : m \in SetOf(X.methods) => OptIn(X.transport, EnvOf)
+\* "Opting in for one transport enables signing methods on that transport only": over a whole run the transports on which a signature
+\* was produced are exactly the opted-in ones
+OptInExactT == X.e = "envsummary" => SetOf(X.signedOn) = {t \in Transports : OptIn(t, EnvOf)}
+
 \* every transport is up, so "every transport" is what was examined
 TransportsT == X.e = "node" => SetOf(X.transports) = Transports
 \* only endpoint-destroying methods are left uninvoked
